@@ -374,7 +374,9 @@ impl<T: BitRead> PackedRead for T {
         extensible: bool,
     ) -> Result<u64, Error> {
         if extensible && self.read_bit()? {
-            Ok(self.read_normally_small_length()? + std_variants)
+            self.read_normally_small_length()?
+                .checked_add(std_variants)
+                .ok_or_else(|| ErrorKind::ValueExceedsMaxInt.into())
         } else {
             self.read_non_negative_binary_integer(None, Some(std_variants - 1))
         }
